@@ -1,6 +1,7 @@
 import UF.Spec.Result
 import UF.Proofs.Badfilter
 import UF.Proofs.DnsRewrite
+import UF.Proofs.BadfilterExamples
 /-
   C08 — `$badfilter` disables exactly its twin rules, however many are present.
   Property theorems only (helper lemmas live in UF/Proofs/Badfilter.lean).
@@ -190,8 +191,6 @@ theorem c08_verdict_twin (l1 l2 l3 other : List NetRule) (x xb : NetRule) (hx : 
 
 /-! #### generated-fact obligation (go/ast over the current rules/network.go) -/
 
-/-- Fields of `rules.NetworkRule` that are not matching-relevant. -/
-def nonMatchingFields : List String := ["RuleText", "Shortcut", "FilterListID", "regex", "Mutex", "invalid"]
 
 /-- As long as `negatesBadfilter` compares struct fields directly, it reads EVERY matching-relevant
     field of `NetworkRule` from BOTH operands (a field added to the struct and forgotten here — the
@@ -204,14 +203,6 @@ theorem c08_fact_all_fields_compared :
 
 /-! #### non-vacuity and the old shape (D7) -/
 
-def exR : NetRule := { text := lit "||e.org^", pattern := lit "||e.org^" }
-def exRBad : NetRule := { text := lit "||e.org^$badfilter", pattern := lit "||e.org^", enabled := Facts.OptionBadfilter }
-def exRImg : NetRule := { text := lit "||e.org^$image", pattern := lit "||e.org^", permTypes := Facts.TypeImage }
-def exRImgBad : NetRule :=
-  { text := lit "||e.org^$image,badfilter", pattern := lit "||e.org^", permTypes := Facts.TypeImage,
-    enabled := Facts.OptionBadfilter }
-def exDenyA : NetRule := { pattern := lit "||e.org^", denyallow := [lit "a.com"] }
-def exDenyBBad : NetRule := { pattern := lit "||e.org^", denyallow := [lit "b.com"], enabled := Facts.OptionBadfilter }
 
 /-- The hypotheses of `c08_twin` are satisfiable: `exRImg` is distinct from the base rule `exR`. -/
 example : exRImg.badfilter = false ∧ exRImgBad.matchFields = exRImg.withBadfilter.matchFields ∧
